@@ -135,7 +135,11 @@ fn main() {
                 }
             }
             let fs = plan::snippet_fs(&src);
-            let ex = exec::ExecSpec::single((1, 2), plan::STACK_MAIN, t);
+            let stack = args
+                .iter()
+                .find_map(|a| a.strip_prefix("--stack=").and_then(|v| v.parse::<u64>().ok()))
+                .unwrap_or(plan::STACK_MAIN);
+            let ex = exec::ExecSpec::single((1, 2), stack, t);
             let res = exec::run_exec(&ex, std::slice::from_ref(&fs));
             let r = &res.results[0][0];
             println!("{}", r.text);
